@@ -348,8 +348,12 @@ def check_real(case):
     load(path) == loads(its text); dump == dumps for a few option sets; the converters write what the API produces"""
     from .. import realscores as RS
     src = RS.path(case['real'])
-    with open(src, encoding='utf-8', newline='') as f:
-        text = f.read()
+    with open(src, 'rb') as f:
+        rawb = f.read()
+    try:
+        text = rawb.decode('utf-8')
+    except UnicodeDecodeError:
+        return Result(classes=['real-score-not-utf8'])  # the property is stated for UTF-8 (see ASSUMPTIONS)
     try:
         d2, e2 = kp.loads(text)
     except Exception as e:  # noqa
